@@ -92,20 +92,32 @@ func refValid(l []pdef) bool {
 type arg struct {
 	Name string // "" = positional
 	Val  int64
+	Nil  bool // the argument is the literal nil (or an expression evaluating to nil)
 }
 
 func (a arg) String() string {
-	if a.Name == "" {
-		return fmt.Sprint(a.Val)
+	v := fmt.Sprint(a.Val)
+	if a.Nil {
+		v = "nil"
 	}
-	return fmt.Sprintf("%s=%d", a.Name, a.Val)
+	if a.Name == "" {
+		return v
+	}
+	return fmt.Sprintf("%s=%s", a.Name, v)
+}
+
+func (a arg) value() any {
+	if a.Nil {
+		return nil
+	}
+	return a.Val
 }
 
 // refBind is the reference binder: ok=false means the call must be rejected at load.
 func refBind(l []pdef, call []arg) (vals []string, ok bool) {
 	hasVar := len(l) > 0 && l[len(l)-1].K == vari
-	bound := make([]*int64, len(l))
-	var tail []int64
+	bound := make([]*arg, len(l))
+	var tail []arg
 	named := false
 	pos := 0
 	for i := range call {
@@ -127,7 +139,7 @@ func refBind(l []pdef, call []arg) (vals []string, ok bool) {
 			if bound[idx] != nil {
 				return nil, false // duplicate
 			}
-			v := a.Val
+			v := a
 			bound[idx] = &v
 			continue
 		}
@@ -135,14 +147,14 @@ func refBind(l []pdef, call []arg) (vals []string, ok bool) {
 			return nil, false // positional after named
 		}
 		if hasVar && pos >= len(l)-1 {
-			tail = append(tail, a.Val)
+			tail = append(tail, a)
 			pos++
 			continue
 		}
 		if pos >= len(l) {
 			return nil, false // more arguments than parameters
 		}
-		v := a.Val
+		v := a
 		bound[pos] = &v
 		pos++
 	}
@@ -152,17 +164,17 @@ func refBind(l []pdef, call []arg) (vals []string, ok bool) {
 			if bound[j] == nil {
 				return nil, false // missing required
 			}
-			vals = append(vals, probe.Render(*bound[j]))
+			vals = append(vals, probe.Render(bound[j].value()))
 		case opt:
 			if bound[j] == nil {
 				vals = append(vals, probe.Render("default-"+p.Name))
 			} else {
-				vals = append(vals, probe.Render(*bound[j]))
+				vals = append(vals, probe.Render(bound[j].value())) // a given nil is nil, not the default
 			}
 		case vari:
 			lst := make([]any, 0, len(tail))
 			for _, x := range tail {
-				lst = append(lst, x)
+				lst = append(lst, x.value())
 			}
 			vals = append(vals, probe.Render(lst))
 		}
@@ -368,7 +380,7 @@ func allCalls(maxLen int, f func(c []arg)) {
 			return
 		}
 		for _, n := range argNames {
-			rec(append(cur, arg{n, int64(10 + len(cur))}))
+			rec(append(cur, arg{Name: n, Val: int64(10 + len(cur))}))
 		}
 	}
 	rec(nil)
@@ -432,7 +444,7 @@ func TestRandomLarger(t *testing.T) {
 		m := rapid.IntRange(0, 5).Draw(t, "nargs")
 		call := make([]arg, m)
 		for i := range call {
-			call[i] = arg{rapid.SampledFrom([]string{"", "", "a", "b", "c", "d", "z"}).Draw(t, "aname"), int64(10 + i)}
+			call[i] = arg{Name: rapid.SampledFrom([]string{"", "", "a", "b", "c", "d", "z"}).Draw(t, "aname"), Val: int64(10 + i), Nil: rapid.IntRange(0, 5).Draw(t, "nil") == 0}
 		}
 		checkCall(t, "random", l, call)
 	})
@@ -450,6 +462,7 @@ type ncall struct {
 type narg struct {
 	Name string
 	Lit  int64
+	Nil  bool
 	Call *ncall
 }
 
@@ -461,7 +474,7 @@ func refEval(lists [][]pdef, c *ncall, want map[int][]string) int64 {
 		if a.Call != nil {
 			v = refEval(lists, a.Call, want)
 		}
-		flat[i] = arg{a.Name, v}
+		flat[i] = arg{Name: a.Name, Val: v, Nil: a.Nil}
 	}
 	vals, ok := refBind(lists[c.Fn], flat)
 	if !ok {
@@ -471,7 +484,9 @@ func refEval(lists [][]pdef, c *ncall, want map[int][]string) int64 {
 	// the function's result: 1 + the sum of the integer arguments it was given
 	sum := int64(1)
 	for _, a := range flat {
-		sum += a.Val
+		if !a.Nil {
+			sum += a.Val
+		}
 	}
 	return sum
 }
@@ -486,9 +501,12 @@ func printCall(b *strings.Builder, c *ncall) {
 		if a.Name != "" {
 			b.WriteString(a.Name + " = ")
 		}
-		if a.Call != nil {
+		switch {
+		case a.Call != nil:
 			printCall(b, a.Call)
-		} else {
+		case a.Nil:
+			b.WriteString("nil")
+		default:
 			fmt.Fprint(b, a.Lit)
 		}
 	}
@@ -542,7 +560,7 @@ func TestCallSequences(t *testing.T) {
 			lists[f] = l
 		}
 		nid := int64(10)
-		nested, variadicNested := false, false
+		nested, variadicNested, nilArgs := false, false, false
 		var genCall func(depth int) *ncall
 		genCall = func(depth int) *ncall {
 			f := rapid.IntRange(0, nf-1).Draw(t, "fn")
@@ -563,6 +581,10 @@ func TestCallSequences(t *testing.T) {
 				if depth > 0 && rapid.IntRange(0, 2).Draw(t, "nest") == 0 {
 					nested = true
 					return narg{Call: genCall(depth - 1)}
+				}
+				if rapid.IntRange(0, 7).Draw(t, "nilarg") == 0 {
+					nilArgs = true
+					return narg{Nil: true}
 				}
 				return narg{Lit: nid}
 			}
@@ -622,6 +644,13 @@ func TestCallSequences(t *testing.T) {
 		var sigs []string
 		for f, l := range lists {
 			params := mkParams(l)
+			for pi, pd := range l {
+				if pd.K == opt {
+					// the declared default is a factory: every use yields a fresh collection
+					name := pd.Name
+					params[pi].Val = func() any { return map[string]any{"default": name} }
+				}
+			}
 			sigs = append(sigs, fmt.Sprintf("fn%d%s", f, strings.TrimPrefix(sigText(l), "f")))
 			fns[fmt.Sprintf("fn%d", f)] = &runtimev2.Fn{
 				CallCheck: func(ctx *runtimev2.Task, e *ast.CallExpr) *errchain.PlError {
@@ -639,8 +668,13 @@ func TestCallSequences(t *testing.T) {
 						if lst, ok := v.([]any); (ok && lst == nil) || (v == nil && params[i].Variable) {
 							v = []any{}
 						}
-						kept[at] = append(kept[at], v)
 						immediate[at] = append(immediate[at], probe.Render(v))
+						if dm, isDefault := v.(map[string]any); isDefault {
+							// what a function does with a collection it was handed: write to it
+							dm["touched-by-call-at"] = int64(at)
+							v = "default (written to by the callee)"
+						}
+						kept[at] = append(kept[at], v)
 						sum += sumInts(v)
 					}
 					ctx.Regs.ReturnAppend(runtimev2.V{V: sum, T: ast.Int})
@@ -662,14 +696,25 @@ func TestCallSequences(t *testing.T) {
 			rk.Fail(t, "sequences", rp, "running a script of bindable calls failed: %v %v\nfunctions: %s\nscript:\n%s", rerr, crash, rp.Sig, src)
 		}
 		for at, w := range want {
+			for wi := range w {
+				for _, nm := range []string{"a", "b", "c", "d"} {
+					if w[wi] == probe.Render("default-"+nm) {
+						w[wi] = probe.Render(map[string]any{"default": nm})
+					}
+				}
+			}
 			if got := strings.Join(immediate[at], " | "); got != strings.Join(w, " | ") {
 				rk.Fail(t, "sequences", rp, "the call at offset %d received [%s], want [%s]\nfunctions: %s\nscript:\n%s", at, got, strings.Join(w, " | "), rp.Sig, src)
 			}
-			var late []string
-			for _, v := range kept[at] {
+			var late, wlate []string
+			for vi, v := range kept[at] {
+				if v == "default (written to by the callee)" {
+					continue
+				}
 				late = append(late, probe.Render(v))
+				wlate = append(wlate, w[vi])
 			}
-			if got := strings.Join(late, " | "); got != strings.Join(w, " | ") {
+			if got := strings.Join(late, " | "); got != strings.Join(wlate, " | ") {
 				rk.Fail(t, "sequences", rp, "the values the call at offset %d received read [%s] at the end of the run, it was given [%s]\nfunctions: %s\nscript:\n%s", at, got, strings.Join(w, " | "), rp.Sig, src)
 			}
 		}
@@ -682,6 +727,9 @@ func TestCallSequences(t *testing.T) {
 		}
 		if variadicNested {
 			labels = append(labels, "sequence/variadic-call-inside-variadic-tail")
+		}
+		if nilArgs {
+			labels = append(labels, "sequence/nil-argument")
 		}
 		evid.Case(rp.Sig+"|"+src, nested, labels...)
 		if variadicNested && len(src)%7 == 0 {
@@ -818,7 +866,11 @@ func parseCall(s string) ([]arg, bool) {
 			a.Name = p[:i]
 			p = p[i+1:]
 		}
-		fmt.Sscanf(p, "%d", &a.Val)
+		if p == "nil" {
+			a.Nil = true
+		} else {
+			fmt.Sscanf(p, "%d", &a.Val)
+		}
 		out = append(out, a)
 	}
 	return out, true
